@@ -62,7 +62,7 @@ def gen_program(rng, k, uri, enc):
     files = {}
     feats = []
     n = rng.randint(2, 7)
-    pool = ["nsdefault", "annotations", "expr", "modcode", "pycode", "defdefault", "nesteddefault", "block", "callcontent", "include", "namespace", "nsimport",
+    pool = ["nsattrorder", "nsdefault", "annotations", "expr", "modcode", "pycode", "defdefault", "nesteddefault", "block", "callcontent", "include", "namespace", "nsimport",
             "pageargs", "control", "text", "manynames", "shadow", "capture", "nesteddefault", "defdefault", "nsoverlap", "falsyargs",
             "falsyargs", "nsoverlap"]
     chosen = rng.sample(pool, min(n, len(pool)))
@@ -132,6 +132,11 @@ def gen_program(rng, k, uri, enc):
             defs.append('<%%namespace name="util%d" file="/nsd%d_%d.html"/><%%def name="%s()"><%%def name="ni%d(f=util%d.shout, g=dflt)">${f(x)}${g}</%%def>O[${ni%d()}]</%%def>'
                         % (j, k, j, nm, j, j, j))
             body.append("${%s()}" % nm)
+        elif f == "nsattrorder":
+            # <%ns:def a=".." b=".." c="..">: the attribute expressions are evaluated in the order they are written
+            files["/ord%d_%d.html" % (k, j)] = head + '<%def name="three(a, b, c)">3(${a}|${b}|${c})</%def>'
+            body.append('<%%namespace name="ord%d" file="/ord%d_%d.html"/><%% seq%d = iter(range(9)) %%>'
+                        '<%%ord%d:three a="${next(seq%d)}" b="${next(seq%d)}" c="${next(seq%d)}"/>' % (j, k, j, j, j, j, j, j))
         elif f == "annotations":
             # Python code of the template that uses the run-time value of an annotation
             body.insert(0, "<%%!\ndef conv%d(v: float = 0):\n    return conv%d.__annotations__['v'](v) * 2\n%%>" % (j, j))
